@@ -16,6 +16,10 @@ type Clause struct {
 	File string
 	Line int
 	Pkg  string // package in whose scope type names of this clause resolve (set for named frames)
+	// Defines: a `defines` clause. It NAMES the value computed by a pure scalar body with an uninterpreted function
+	// (result == f(args)); exported to callers like an ensures, but discharged on the function itself by the syntactic
+	// obligation #frame.defines (the body is a deterministic function of exactly the listed inputs), not by a solver.
+	Defines bool
 }
 
 type LoopSpec struct {
@@ -114,7 +118,7 @@ func newContractSet() *ContractSet {
 
 var blockKw = map[string]bool{"frame": true, "func": true, "spec": true, "pred": true, "lemma": true, "axiom": true, "atomic": true, "recspec": true, "uninterp": true}
 var clauseKw = map[string]bool{"requires": true, "ensures": true, "modifies": true, "loop": true, "assert": true, "possible": true,
-	"assume": true, "arith": true, "nopanic": true, "trusted": true, "abstract": true, "note": true, "nosafety": true, "params": true, "bounded": true, "opaque": true, "timeout": true, "uses": true, "readsglobals": true}
+	"assume": true, "arith": true, "nopanic": true, "trusted": true, "abstract": true, "note": true, "nosafety": true, "params": true, "bounded": true, "opaque": true, "timeout": true, "uses": true, "readsglobals": true, "defines": true}
 
 type rawLine struct {
 	text string
@@ -276,11 +280,12 @@ func (cs *ContractSet) parseBlock(b []rawLine, file, pkg string) error {
 			w := strings.Fields(l.text)[0]
 			arg := strings.TrimSpace(strings.TrimPrefix(l.text, w))
 			switch w {
-			case "requires", "ensures":
+			case "requires", "ensures", "defines":
 				c, err := mkClause(arg, file, l.line)
 				if err != nil {
 					return err
 				}
+				c.Defines = w == "defines"
 				if w == "requires" {
 					fc.Requires = append(fc.Requires, c)
 				} else {
